@@ -979,3 +979,128 @@ def _is_graph_field(F, body, e):
     if isinstance(base, tuple) and base[0] in ("param", "var"):
         return C.adt_name(F, body["locals"][base[1]]) == "graph::DebruijnGraph"
     return False
+
+
+# =========================================================================== C04.1 BaseGraph::combine
+
+def combine_table(F, rep, rule="C04.1"):
+    try:
+        body = pub_fn(F, "combine", prefix="graph::BaseGraph")
+    except Unsupported as e:
+        rep.violated(rule, "combine", str(e), witness={"kind": "anchor-missing"})
+        return
+    PS = "dna_string::PackedDnaStringSet"
+
+    class H(Oracles):
+        def __init__(self):
+            Oracles.__init__(self)
+            self.adds = []
+
+        def on_call(self, it, fn, args, dest_ty, term, caller):
+            path = fn.get("path", "")
+            name = path.split("::")[-1]
+            if path.startswith(PS):
+                if name == "new":
+                    return Opaque(PS, {"combined-seqs"})
+                s_ = recv(it, args[0]) if args else None
+                if name == "len":
+                    return Int(64, False, val=s_.info.get("n", 0))
+                if name == "get":
+                    i = args[1].val if isinstance(args[1], Int) and args[1].is_conc() else None
+                    return Opaque("DnaStringSlice", {"slice"}, {"of": (s_.info.get("g"), i)})
+                if name == "add":
+                    self.adds.append(("combined-seqs" in tags_of(s_), info_of_(recv(it, args[1])).get("of")))
+                    return Tup([])
+            if is_print_call(fn):
+                return Opaque(dest_ty, {"fmt"})
+            return NotImplemented
+
+    def info_of_(v):
+        return v.info if isinstance(v, Opaque) else {}
+    problems = []
+    inc = []
+    for flags in ((False, False), (True, True), (True, False), (False, True), (True,), ()):
+        h = H()
+        it = Interp(F, False, h)
+        graphs = []
+        sizes = [2, 1][:len(flags)]
+        for gi, st in enumerate(flags):
+            graphs.append(struct_of(F, "graph::BaseGraph", {
+                "sequences": Opaque(PS, {"seqs"}, {"g": gi, "n": sizes[gi]}),
+                "exts": VecV([Adt(EXTS, 0, [Int(8, False, val=10 * gi + j)]) for j in range(sizes[gi])]),
+                "data": VecV([Opaque("D", {"d"}, {"d": (gi, j)}) for j in range(sizes[gi])]),
+                "stranded": mkbool(st)}))
+        src = IterV("owned", (Ref(Cell(VecV(graphs), "graphs")), 0, len(graphs)))
+        rep.evaluations += 1
+        mixed = len(set(flags)) > 1
+        try:
+            out = it.call_body(body, [src])
+        except (Undecided, Unsupported) as e:
+            inc.append(str(e))
+            continue
+        except Diverge as e:
+            if not mixed:
+                problems.append("combine panics for graphs with strandedness %s: %s" % (list(flags), e))
+            continue
+        if mixed:
+            problems.append("combining stranded and unstranded graphs %s must be refused, it returns a graph" % (list(flags),))
+            continue
+        names = [f["name"] for f in F.adts["graph::BaseGraph"]["variants"][0]["fields"]]
+        if not (isinstance(out, Adt) and out.name == "graph::BaseGraph"):
+            inc.append("result %r" % (out,))
+            continue
+        ex = out.fields[names.index("exts")]
+        da = out.fields[names.index("data")]
+        st = out.fields[names.index("stranded")]
+        sq = out.fields[names.index("sequences")]
+        want_adds = [(True, (gi, j)) for gi in range(len(flags)) for j in range(sizes[gi])]
+        if h.adds != want_adds or "combined-seqs" not in tags_of(sq):
+            problems.append("sequences copied: %s; required every sequence of every graph, in order: %s" % (h.adds, want_adds))
+        got_e = [e.fields[0].val for e in ex.elems] if isinstance(ex, VecV) else None
+        if got_e != [10 * gi + j for gi in range(len(flags)) for j in range(sizes[gi])]:
+            problems.append("extensions of the combined graph are %s — not the concatenation of the inputs' extensions in node order" % got_e)
+        got_d = [x.info.get("d") for x in da.elems] if isinstance(da, VecV) else None
+        if got_d != [(gi, j) for gi in range(len(flags)) for j in range(sizes[gi])]:
+            problems.append("payloads of the combined graph are %s — not the concatenation of the inputs' payloads in node order" % got_d)
+        want_st = all(flags)
+        if not (isinstance(st, Int) and st.is_conc() and bool(st.val) == want_st):
+            problems.append("strandedness of the combination of %s is %r" % (list(flags), st))
+    if problems:
+        rep.violated(rule, "combine", "BaseGraph::combine: %s" % problems[0], site=F.site(body, body["line"]), witness={"kind": "lockstep", "count": len(problems)})
+    elif inc:
+        rep.inconclusive(rule, "combine", "BaseGraph::combine: %s" % inc[0])
+    else:
+        rep.holds(rule, "combine", "BaseGraph::combine concatenates sequences, extensions and payloads of all shard graphs in the same order, keeps the common "
+                  "strandedness and refuses mixed inputs")
+
+
+def no_pruning_in_filter(F, rep, rule="C04.2"):
+    """filter_kmers must keep shard-boundary extensions: it reaches no pruning function"""
+    root = F.fns.get("filter::filter_kmers")
+    if root is None:
+        rep.violated(rule, "filter-keeps-boundary-exts", "anchor-missing: filter::filter_kmers", witness={"kind": "anchor-missing"})
+        return
+    seen = set()
+    st = [root["path"]]
+    bad = None
+    while st:
+        p = st.pop()
+        if p in seen:
+            continue
+        seen.add(p)
+        b = F.fns.get(p)
+        if not b:
+            continue
+        for bb in b["blocks"]:
+            t = bb["t"]
+            if t.get("k") == "call" and "const" in t["f"] and "fn" in t["f"]["const"]:
+                fr = t["f"]["const"]["fn"]
+                q = fr.get("rpath") or fr.get("path")
+                if q and any(q.endswith(x) for x in ("remove_censored_exts", "remove_censored_exts_sharded", "::fix_exts", "::get_valid_exts")):
+                    bad = (p, q)
+                if q and q not in seen:
+                    st.append(q)
+    if bad:
+        rep.violated(rule, "filter-keeps-boundary-exts", "filter_kmers reaches %s (via %s): extensions pointing into other shards would be dropped before the shards are combined" % (bad[1], bad[0]))
+    else:
+        rep.holds(rule, "filter-keeps-boundary-exts", "filter_kmers reaches no extension-pruning function (%d callees inspected): shard-boundary extensions survive to the combined graph" % len(seen))
